@@ -17,6 +17,17 @@ class Injected(MemoryError):
     pass
 
 
+def injected_exception(kind, msg):
+    """The exception types a numerical kernel can really raise; a fallback written for one of them
+    (`except LinAlgError: use the previous model`) is only exercised if that very type is injected."""
+    import numpy as np
+    base = {"MemoryError": MemoryError, "LinAlgError": np.linalg.LinAlgError, "FloatingPointError": FloatingPointError,
+            "ZeroDivisionError": ZeroDivisionError, "OverflowError": OverflowError}.get(kind, MemoryError)
+    if base is MemoryError:
+        return Injected(msg)
+    return type("Injected" + base.__name__, (base,), {})(msg)
+
+
 class FaultPlane(object):
     def __init__(self, cls_name):
         self.cls_name = cls_name
@@ -61,18 +72,19 @@ class FaultPlane(object):
             plane.armed = None
             plane.fired += 1
             plane.fired_sites.append((idx, arm[1]))
+            kind = arm[2] if len(arm) > 2 else "MemoryError"
             if arm[1] == "before":
-                raise Injected("injected kernel failure (before) in %s" % orig.__name__)
+                raise injected_exception(kind, "injected kernel failure (before) in %s" % orig.__name__)
             orig(*a, **k)
-            raise Injected("injected kernel failure (after) in %s" % orig.__name__)
+            raise injected_exception(kind, "injected kernel failure (after) in %s" % orig.__name__)
         kernel.__name__ = getattr(orig, "__name__", "kernel")
         kernel.__wrapped__ = orig
         return kernel
 
-    def arm(self, idx, when):
+    def arm(self, idx, when, kind="MemoryError"):
         if idx >= len(self.seams):
             idx = len(self.seams) - 1
-        self.armed = (idx, when)
+        self.armed = (idx, when, kind)
 
     class _Oracle(object):
         def __init__(self, plane):
